@@ -117,6 +117,9 @@ Fixpoint rs_allM {A} (f : A -> M bool) (l : list A) : M bool :=
   end.
 
 (* ---- results / options ---- *)
+Definition rs_is_some {A} (o : option A) : bool := match o with Some _ => true | None => false end.
+Definition rs_split_first {A} (l : list A) : option (A * list A) :=
+  match l with [] => None | a :: l' => Some (a, l') end.
 Definition rs_map_err {A} (r : res A) (e : err) : res A :=
   match r with Ok a => Ok a | Err _ => Err e end.
 Definition rs_ok {A} (r : res A) : option A := match r with Ok a => Some a | Err _ => None end.
